@@ -61,6 +61,14 @@ pub fn run(rep: &mut StageReport, tier: &str, _seed: u64) {
                 continue;
             }
         };
+        // the platform trust store must not widen whom a client trusts: make CA-B "platform trusted" for this
+        // process (rustls-native-certs honours SSL_CERT_FILE) — a client configured with CA-A must still refuse
+        // a server certified by CA-B
+        {
+            let p = scratch_dir().join(format!("platform-ca-{}.pem", round));
+            let _ = std::fs::write(&p, pem("CERTIFICATE", &read_der(&b.server_ca()).unwrap_or_default()));
+            std::env::set_var("SSL_CERT_FILE", &p);
+        }
         let self_signed = match rcgen::generate_simple_self_signed(vec!["localhost".to_string()]) {
             Ok(c) => c,
             Err(e) => {
